@@ -1,0 +1,56 @@
+//go:build verif
+// +build verif
+
+package rtree
+
+import "github.com/ctessum/geom"
+
+// This file is compiled only with the build tag "verif". It adds a read-only
+// walk of the node structure for external invariant checking and changes
+// nothing else.
+
+// VerifEntry is a snapshot of one entry of a node.
+type VerifEntry struct {
+	HasBB bool        // entry.bb != nil
+	BB    geom.Bounds // copy of *entry.bb (zero when HasBB is false)
+	Obj   geom.Geom   // entry.obj (nil for entries that point to a child node)
+	Child *VerifNode  // snapshot of entry.child (nil when entry.child == nil)
+}
+
+// VerifNode is a snapshot of one node.
+type VerifNode struct {
+	Level     int  // node.level as stored
+	Leaf      bool // node.leaf as stored
+	ParentOK  bool // node.parent is the node holding the entry that points here (nil for the root)
+	Truncated bool // the walk stopped here because maxDepth was reached
+	Entries   []VerifEntry
+}
+
+// VerifWalk returns a snapshot of the whole tree in entry order together with
+// the stored height and size fields. It does not modify the tree. The walk
+// stops descending below maxDepth nodes (cycle guard).
+func (tree *Rtree) VerifWalk(maxDepth int) (root *VerifNode, height, size int) {
+	return verifWalk(tree.root, nil, maxDepth), tree.height, tree.size
+}
+
+func verifWalk(n, holder *node, depth int) *VerifNode {
+	if n == nil {
+		return nil
+	}
+	v := &VerifNode{Level: n.level, Leaf: n.leaf, ParentOK: n.parent == holder}
+	if depth <= 0 {
+		v.Truncated = true
+		return v
+	}
+	v.Entries = make([]VerifEntry, len(n.entries))
+	for i, e := range n.entries {
+		ve := VerifEntry{Obj: e.obj}
+		if e.bb != nil {
+			ve.HasBB = true
+			ve.BB = *e.bb
+		}
+		ve.Child = verifWalk(e.child, n, depth-1)
+		v.Entries[i] = ve
+	}
+	return v
+}
